@@ -301,12 +301,45 @@ func c03writeRead(x poly.Sequence, want []byte) (fields []string, status string)
 	}
 	path := filepath.Join(dir, fmt.Sprintf("wr-%d-%d.gb", os.Getpid(), runner.Unique()))
 	defer os.Remove(path)
+	// a small history on ONE path: a LONGER record is written first, then the record under test; the file
+	// must then hold exactly Build(x) (a Write that does not truncate leaves the old tail behind the new `//`)
+	genbank.Write(c03longer(x), path)
 	genbank.Write(x, path)
 	got, err := os.ReadFile(path)
 	if err != nil || !bytes.Equal(got, want) {
 		return nil, "diff"
 	}
-	return c03encode(genbank.Read(path)), "ok"
+	one := c03encode(genbank.Read(path))
+	// the other exported reader that takes what Write writes: ReadMulti must find exactly this one record
+	// (ParseMulti cuts a file after every line that ends in `//`: a record whose text has such a line inside —
+	// a wrapped metadata line ending in the word `path//` — is outside ParseMulti's domain, property C01's
+	// `noSlashEnd`; the single-record Read above is still judged for it)
+	if !strings.Contains(string(want), "//\n") {
+		multi := genbank.ReadMulti(path)
+		if len(multi) != 1 || !c03equalFields(c03encode(multi[0]), one) {
+			return nil, "diff"
+		}
+	}
+	// and the same record written to a FRESH path gives the same bytes
+	fresh := filepath.Join(dir, fmt.Sprintf("wr-%d-%d.gb", os.Getpid(), runner.Unique()))
+	defer os.Remove(fresh)
+	genbank.Write(x, fresh)
+	got2, err := os.ReadFile(fresh)
+	if err != nil || !bytes.Equal(got2, want) {
+		return nil, "diff"
+	}
+	return one, "ok"
+}
+
+// c03longer is a record whose text is longer than x's in every section.
+func c03longer(x poly.Sequence) poly.Sequence {
+	l := x
+	l.Sequence = x.Sequence + strings.Repeat("acgt", 1500)
+	l.Meta.Definition = x.Meta.Definition + strings.Repeat(" previous content", 200)
+	l.Meta.Locus.Name = x.Meta.Locus.Name + "previous"
+	l.Features = append(append([]poly.Feature(nil), x.Features...), poly.Feature{Type: "misc_feature", GbkLocationString: "1..2",
+		Attributes: map[string]string{"note": "previous content of this path"}})
+	return l
 }
 
 func c03equalFields(a, b []string) bool {
